@@ -371,13 +371,30 @@ def r4_codec(ctx):
     # ModelSettings forwards every other top-level key as a hyperparameter
     ms = ix.func("leaspy.models.settings", "ModelSettings.__init__", "C12.R4")
     comp = [x for x in ast.walk(ms.node) if isinstance(x, ast.DictComp)]
-    drop = set()
+    drop = None
+
+    def literal_set(e):
+        """the set of string constants `e` denotes: a literal tuple / list / set, or a class constant `self.X` / `cls.X` / `ModelSettings.X` holding one"""
+        if isinstance(e, (ast.Tuple, ast.List, ast.Set)) and all(isinstance(x_, ast.Constant) for x_ in e.elts):
+            return {x_.value for x_ in e.elts}
+        if isinstance(e, ast.Attribute) and isinstance(e.value, ast.Name) and e.value.id in ("self", "cls", "ModelSettings"):
+            for b_ in ix.classes.get(ms.cls, ast.ClassDef(body=[])).body:
+                if isinstance(b_, (ast.Assign, ast.AnnAssign)):
+                    tg = b_.targets[0] if isinstance(b_, ast.Assign) else b_.target
+                    if U(tg) == e.attr and b_.value is not None:
+                        return literal_set(b_.value)
+        return None
     for c in comp:
         for x in ast.walk(c):
-            if isinstance(x, ast.Compare) and isinstance(x.ops[0], ast.NotIn) and isinstance(x.comparators[0], (ast.Tuple, ast.List, ast.Set)):
-                drop = {e.value for e in x.comparators[0].elts if isinstance(e, ast.Constant)}
-    ctx.check(drop == DROPPED, "C12.R4", ms, comp[0] if comp else ms.node, f"ModelSettings forwards every key except {sorted(DROPPED)}",
-              f"ModelSettings drops {sorted(drop)} (the rules of R2 assume {sorted(DROPPED)})", construct="keys dropped by ModelSettings")
+            if isinstance(x, ast.Compare) and isinstance(x.ops[0], ast.NotIn):
+                drop = literal_set(x.comparators[0])
+    if drop is None:
+        ctx.unknown("C12.R4", ms, comp[0] if comp else ms.node, "cannot read the set of top-level keys ModelSettings does not forward as hyperparameters", construct="keys dropped by ModelSettings")
+    else:
+        extra, fewer = sorted(drop - DROPPED), sorted(DROPPED - drop)
+        ctx.check(drop == DROPPED, "C12.R4", ms, comp[0] if comp else ms.node, f"ModelSettings forwards every key except {sorted(DROPPED)}",
+                  (f"ModelSettings no longer forwards the saved key(s) {extra} to the model constructor: what was saved under them is lost on reload" if extra
+                   else f"ModelSettings now forwards {fewer} as hyperparameters (the rules of R2 assume {sorted(DROPPED)} are not)"), construct="keys dropped by ModelSettings")
 
 
 def r5_rank(ctx):
